@@ -32,8 +32,8 @@ FAMILIES = ("add", "short", "addnode", "copyto", "move", "remove", "remove_child
 CHUNK = 30
 
 
-def run_hist(univ, ops, oracles=("index",)):
-    pr, pre, post = mut_c02.hooks(ops)
+def run_hist(univ, ops, oracles=("index",), probe_from=0):
+    pr, pre, post = mut_c02.hooks(ops, probe_from=probe_from)
     r = mut_ex.replay(dict(univ=univ, ops=ops), oracles=oracles, pre=pre, post=post, keep_world=True)
     return pr, r
 
@@ -131,7 +131,17 @@ class Prop:
             for alt in desc["alts"]:
                 yield dict(kind="hist", univ=desc["univ"], ops=desc["setup"] + [alt])
             return
-        for h in mut.shrink_candidates(dict(univ=desc["univ"], ops=desc["ops"])):
+        ops = desc["ops"]
+        if any(o[0] == "iter_remove" for o in ops):
+            # mut.shrink_candidates does not know the expanded entry: truncate, and drop entries that allocate nothing
+            for cut in (len(ops) // 2, len(ops) - 1):
+                if 0 < cut < len(ops):
+                    yield dict(kind="hist", univ=desc["univ"], ops=ops[:cut])
+            for i in range(len(ops) - 1, -1, -1):
+                if ops[i][0] in ("remove", "remove_children", "move", "set_data", "rename", "sort", "meta", "filter", "del", "clear", "iter_remove"):
+                    yield dict(kind="hist", univ=desc["univ"], ops=ops[:i] + ops[i + 1:])
+            return
+        for h in mut.shrink_candidates(dict(univ=desc["univ"], ops=ops)):
             yield dict(kind="hist", univ=h["univ"], ops=h["ops"])
 
     def run(self, desc) -> Case:
@@ -143,7 +153,7 @@ class Prop:
             alt_terms, alt_obs = [], []
             changed = 0
             for alt in desc["alts"]:
-                pr, r = run_hist(univ, setup + [alt])
+                pr, r = run_hist(univ, setup + [alt], probe_from=max(0, len(setup) - 1))
                 old = pr.obs[len(setup) - 1] if setup else None
                 d = pr.deltas(old, pr.obs[-1])
                 changed += 1 if any(d) else 0
